@@ -136,10 +136,10 @@ def run(ctx: Ctx, env):
                       "only paths rooted at the variable may change", h2ci.module.loc(fn2))
 
     # the shorthand
-    um = repo.modules.get("odata_query.utils")
-    if um is None or "expression_relative_to_identifier" not in um.functions:
+    uf = repo.function("odata_query.utils", "expression_relative_to_identifier")
+    if uf is None:
         raise AnalysisError("odata_query.utils.expression_relative_to_identifier not found")
-    sfn = um.functions["expression_relative_to_identifier"]
+    um, sfn = uf
     params = [a.arg for a in sfn.args.args]
 
     def setup3(it):
